@@ -103,10 +103,25 @@ theorem C21_fails_asis_buffered (c : Cfg) (hc : c.AsIsBuffered) :
     s.phase = .idle ∧ s.sent = 2 ∧ raftOf s.durable = [] ∧ recoverOK s = false := by
   obtain ⟨h1, h2⟩ := hc
   cases c with
-  | mk a b =>
+  | mk a b d =>
     simp only at h1 h2
     subst h1; subst h2
-    decide
+    cases d <;> decide
+
+/-- corpus/C21/peer-send-needs-persist.ops, model side: a peer that sends a Ready's messages
+although the storage call persisting it has not returned -/
+def witnessSendEarly : List Ev := [.call (.hs ⟨5, 2, 0⟩), .send, .crash]
+
+/-- **Persist → send is needed.**  If the peer hands messages to the transport before the
+storage call returned (e.g. on the error path of `handleReady`), the record counted as acted on
+is not in the files: `sent` exceeds what a crash keeps — the headline's last conjunct fails. -/
+theorem C21_fails_send_before_persist (c : Cfg) (hc : c.SendsEarly) :
+    ¬ ((run c witnessSendEarly).sent ≤ (raftOf (run c witnessSendEarly).durable).length) := by
+  cases c with
+  | mk a b d =>
+    simp only [Cfg.SendsEarly] at hc
+    subst hc
+    cases a <;> cases b <;> decide
 
 /-- **What the as-is code still guarantees** (any value of `flushOnAppend`): nothing is lost
 across a *clean* shutdown — whenever the WAL buffer is empty (after `wal.Sync()` /
